@@ -199,6 +199,12 @@ func (r *Run) Violation(key string, caseIdx int, brief string, detail any) {
 	}
 	os.WriteFile(path, b, 0o644)
 	r.violations = append(r.violations, Violation{Key: key, Replay: path, Brief: brief})
+	// Write a provisional result at once, so that a verdict survives even if the
+	// process later crashes or hangs in the (possibly broken) code under test.
+	if rpath := os.Getenv("VERIF_RESULT_FILE"); rpath != "" {
+		rb, _ := json.MarshalIndent(map[string]any{"property_id": r.Prop, "status": "violated", "violations": r.violations, "provisional": true}, "", " ")
+		os.WriteFile(rpath, rb, 0o644)
+	}
 }
 
 // Finish writes evidence/<prop>.json and the result file read by the driver,
